@@ -29,6 +29,25 @@ namespace verif
         bool                     confirmed = false;
     };
 
+    // monitors whose violation ends a history. Empty = every monitor. A check passes the monitors of ITS property: a
+    // transition that only violates monitors of other properties is recorded but the search continues behind it, so that
+    // the downstream effect on this property is still explored (on the unchanged tree nothing fires, so nothing changes).
+    inline std::set<std::string>& blocking_monitors()
+    {
+        static std::set<std::string> s;
+        return s;
+    }
+    inline bool is_blocking(const std::vector<violation>& vs)
+    {
+        auto& b = blocking_monitors();
+        if (b.empty())
+            return true;
+        for (auto& v : vs)
+            if (v.monitor == "M-sane" || b.count(v.monitor))
+                return true;
+        return false;
+    }
+
     struct explore_limits
     {
         std::size_t max_states = 2000000;
@@ -127,6 +146,7 @@ namespace verif
         std::set<std::string>                           seen_fp;
         std::vector<u8>                                 snap;
         std::vector<std::vector<u8>>                    snaps; // snapshot mode: per node, freed after expansion
+        std::vector<bool>                               taint; // node reached behind a violation of another property's monitor
 
         static hash128 key()
         {
@@ -147,26 +167,73 @@ namespace verif
             return ops;
         }
 
-        // replay a history on a fresh world; returns false if any op raised a violation
-        static bool rebuild(const std::vector<int>& ops, std::string* why = nullptr)
+        // a step of a history that continues behind a violation of another property's monitor ("tainted") runs inside the
+        // fallback region: harness code that trusts the library may crash on the broken state; that is reported as M-sane
+        static void apply_t(int op, bool tainted)
+        {
+            if (!tainted)
+            {
+                S::apply(op);
+                return;
+            }
+            int oc;
+            VERIF_OUTER_GUARDED(oc, { S::apply(op); });
+            if (oc != OUT_OK)
+            {
+                T().fail("M-sane", "crash-behind-foreign-violation",
+                         std::string("the process ") + outcome_name(oc)
+                             + " in a valid call sequence that continues behind a violation of another property's monitor");
+                T().outcome = outcome_name(oc);
+            }
+        }
+        static bool enabled_t(int op, bool tainted)
+        {
+            if (!tainted)
+                return S::enabled(op);
+            int  oc;
+            bool e = false;
+            VERIF_OUTER_GUARDED(oc, { e = S::enabled(op); });
+            return oc == OUT_OK && e;
+        }
+        static std::string opname_t(int op, bool tainted)
+        {
+            if (!tainted)
+                return S::opname(op);
+            int         oc;
+            std::string n;
+            VERIF_OUTER_GUARDED(oc, { n = S::opname(op); });
+            return oc == OUT_OK ? n : "op" + std::to_string(op);
+        }
+
+        // replay a history on a fresh world; returns false if any op raised a (blocking) violation
+        static bool rebuild(const std::vector<int>& ops, std::string* why = nullptr, bool* tainted_out = nullptr)
         {
             S::init();
+            bool tainted = false;
+            if (tainted_out)
+                *tainted_out = false;
             for (auto op : ops)
             {
                 T().clear();
-                if (!S::enabled(op))
+                if (!enabled_t(op, tainted))
                 {
                     if (why)
                         *why = "op " + S::opname(op) + " not enabled on replay";
                     return false;
                 }
-                S::apply(op);
-                if (!T().violations.empty())
+                apply_t(op, tainted);
+                if (!T().violations.empty() && (is_blocking(T().violations) || T().terminal))
                 {
                     if (why)
                         *why = "violation on replay: " + T().violations[0].monitor + " "
                                + T().violations[0].detail;
                     return false;
+                }
+                if (!T().violations.empty())
+                {
+                    tainted = true;
+                    if (tainted_out)
+                        *tainted_out = true;
                 }
             }
             return true;
@@ -205,18 +272,26 @@ namespace verif
                     std::vector<int> prefix(ops.begin(), ops.end() - 1);
                     std::vector<std::string> names;
                     S::init();
-                    bool ok = true;
+                    bool ok = true, tainted = false;
                     for (auto o : prefix)
                     {
                         T().clear();
-                        names.push_back(S::opname(o));
-                        S::apply(o);
+                        names.push_back(opname_t(o, tainted));
+                        apply_t(o, tainted);
                         if (!T().violations.empty())
-                            ok = false;
+                        {
+                            if (is_blocking(T().violations) || T().terminal)
+                                ok = false;
+                            else
+                            {
+                                tainted = true;
+                                names.back() += "   [violates " + T().violations[0].monitor + " of another property, history continues]";
+                            }
+                        }
                     }
                     T().clear();
-                    names.push_back(S::opname(op));
-                    S::apply(op);
+                    names.push_back(opname_t(op, tainted));
+                    apply_t(op, tainted);
                     bool again = false;
                     for (auto& v2 : T().violations)
                         if (v2.monitor == v.monitor && v2.tag == v.tag)
@@ -241,6 +316,7 @@ namespace verif
             nodes.clear();
             seen.clear();
             snaps.clear();
+            taint.clear();
             snap.resize(S::world_size());
 
             S::init();
@@ -341,6 +417,7 @@ namespace verif
                     std::vector<u8>().swap(snaps[idx]);
                 bool dirty = false;
                 int  n     = S::nops();
+                bool tainted = idx < taint.size() && taint[idx];
                 for (int op = 0; op < n; ++op)
                 {
                     if (dirty)
@@ -348,18 +425,32 @@ namespace verif
                         std::memcpy(S::world(), snap.data(), S::world_size());
                         dirty = false;
                     }
-                    if (!S::enabled(op))
+                    if (!enabled_t(op, tainted))
                         continue;
                     dirty = true;
                     T().clear();
-                    S::apply(op);
+                    apply_t(op, tainted);
                     ++res.transitions;
                     note_transition();
                     ++res.outcomes[S::opkind(op) + ":" + T().outcome];
+                    bool now_tainted = tainted;
                     if (!T().violations.empty())
                     {
+                        bool block = is_blocking(T().violations) || T().terminal;
+                        std::vector<u8> after;
+                        if (!block)
+                        {
+                            // record_violations replays histories: keep the state reached by this transition
+                            auto w = static_cast<const u8*>(S::world());
+                            after.assign(w, w + S::world_size());
+                        }
                         record_violations(idx, op);
-                        continue;
+                        if (block)
+                            continue;
+                        std::memcpy(S::world(), after.data(), S::world_size());
+                        T().clear();
+                        now_tainted = true;
+                        ++res.counters["continued_behind_foreign_violation"];
                     }
                     if (T().terminal)
                         continue; // the operation ends the history (e.g. a deliberately invalid call that was reported)
@@ -368,6 +459,11 @@ namespace verif
                     {
                         node nn{idx, u16(op), u16(nodes[idx].depth + 1), k};
                         nodes.push_back(nn);
+                        if (now_tainted)
+                        {
+                            taint.resize(nodes.size(), false);
+                            taint.back() = true;
+                        }
                         if (lim.snapshots)
                         {
                             snaps.resize(nodes.size());
@@ -391,11 +487,14 @@ namespace verif
                 auto                     ops = history_of(idx);
                 std::vector<std::string> names;
                 S::init();
+                bool tainted = false;
                 for (auto o : ops)
                 {
                     T().clear();
-                    names.push_back(S::opname(o));
-                    S::apply(o);
+                    names.push_back(opname_t(o, tainted));
+                    apply_t(o, tainted);
+                    if (!T().violations.empty())
+                        tainted = true;
                 }
                 return names;
             };
